@@ -74,14 +74,10 @@ func (w *c18World) c18Ask(t *rapid.T, unit string, q c18Query) {
 	w.cp.dialMode = q.Mode
 	target, reroute, dialIp := w.cp.ChooseDialTarget(q.Ob, q.Dst, q.Sn.S)
 	got := c18Got{Target: target, Reroute: reroute, DialIp: dialIp}
-	allowF1 := vkKnown(c18FindingLiteralPort)
-	took, f1, err := c18Judge(v, got, q.Dst, q.Sn, allowF1)
+	took, lpd, err := c18Judge(v, got, q.Dst, q.Sn)
 	if err != nil {
 		t.Fatalf("C18 violated: mode=%q outbound=%d(%s) dst=%v sniffed=%q (%s): got target=%q reroute=%v dialIp=%v: %v\nmodel: dns=%v verified=%v neg=%v now=%v",
 			q.Mode, q.Ob, q.ObKind, q.Dst, q.Sn.S, q.Sn.Kind, target, reroute, dialIp, err, w.dns[q.Sn.Bare], w.verified, w.neg, now)
-	}
-	if f1 {
-		vkExcluded(unit, c18FindingLiteralPort)
 	}
 	classes := []string{
 		"mode_" + string(q.Mode), "ob_" + q.ObKind, "dst_" + c18DstFamily(q.Dst.Addr()), "sniff_" + q.Sn.Kind,
@@ -93,6 +89,9 @@ func (w *c18World) c18Ask(t *rapid.T, unit string, q c18Query) {
 	}
 	if reroute {
 		classes = append(classes, "reroute_"+string(q.Mode))
+	}
+	if lpd {
+		classes = append(classes, "literal_port_dialIp_false")
 	}
 	key := ""
 	if v.NonTrivia {
